@@ -766,7 +766,17 @@ def gen_apply():
     emit("ApplyGen.v", "\n".join(out) + "\n")
 
 
-KERNELS = [(gen_retry, "RetryGen.v"), (gen_timeout, "TimeoutGen.v"), (gen_bool, "BoolGen.v"), (gen_zip, "ZipGen.v"),
+sys.path.insert(0, os.path.dirname(os.path.abspath(__file__)))
+import srcfacts      # noqa: E402
+
+
+def _gen_src(mod):
+    def g():
+        emit("Src_%s.v" % mod, srcfacts.gen_text(mod))
+    return g
+
+
+KERNELS = [(_gen_src(m), "Src_%s.v" % m) for m in srcfacts.MODULES] + [(gen_retry, "RetryGen.v"), (gen_timeout, "TimeoutGen.v"), (gen_bool, "BoolGen.v"), (gen_zip, "ZipGen.v"),
            (gen_throttle, "ThrottleGen.v"), (gen_proxy, "ProxyGen.v"), (gen_bind, "BindGen.v"), (gen_apply, "ApplyGen.v")]
 
 
@@ -781,7 +791,7 @@ def main():
             g()
         except Unsupported as e:
             failed.append((name, "TRANSLATOR-FAIL-CLOSED: %s" % e))
-        except (SyntaxError, IndexError, AttributeError, KeyError, ValueError, TypeError) as e:
+        except (SyntaxError, IndexError, AttributeError, KeyError, ValueError, TypeError, OSError) as e:
             failed.append((name, "TRANSLATOR-FAIL-CLOSED: %s: %s" % (type(e).__name__, e)))
     for name, msg in failed:
         for ext in (".vo", ".vok", ".vos", ".glob"):
